@@ -174,6 +174,57 @@ def run_one(harness, worker, timeout_s, mem_kb, extra_args=None, features=None, 
     return res
 
 
+MARK = "// ---- appended by /verif/lib/gen.py from "
+
+
+def failing_parts(log_path):
+    """harness files (basenames) in whose appended text rustc reports errors; None if an error lies in ruler's own
+    text or in a base harness file (harness/<module>.rs), which everything else depends on"""
+    try:
+        text = open(log_path, errors="replace").read()
+    except OSError:
+        return None
+    locs = re.findall(r"^\s*--> src/\.\./gen/([\w/]+)\.rs:(\d+):\d+", text, re.M)
+    # only locations that belong to an error (not a warning): take those following an "error" header
+    err_locs = []
+    for m in re.finditer(r"^error(?:\[E\d+\])?:.*?\n\s*--> src/\.\./gen/([\w/]+)\.rs:(\d+):\d+", text, re.M):
+        err_locs.append((m.group(1), int(m.group(2))))
+    if not err_locs:
+        return None
+    parts = set()
+    for module, line in err_locs:
+        gpath = os.path.join(KANI_DIR, "gen", module + ".rs")
+        owner = None
+        for k, l in enumerate(open(gpath, encoding="utf-8").read().split("\n"), 1):
+            if k > line:
+                break
+            if l.startswith(MARK):
+                owner = os.path.basename(l[len(MARK):].split(" ----")[0])
+        if owner is None or "__" not in owner:
+            return None
+        parts.add(owner)
+    return parts
+
+
+def strip_parts(parts):
+    """remove the appended text of the given part files from the generated modules"""
+    gdir = os.path.join(KANI_DIR, "gen")
+    for d, _, fs in os.walk(gdir):
+        for f in fs:
+            if not f.endswith(".rs"):
+                continue
+            p = os.path.join(d, f)
+            lines = open(p, encoding="utf-8").read().split("\n")
+            out, skip = [], False
+            for l in lines:
+                if l.startswith(MARK):
+                    skip = os.path.basename(l[len(MARK):].split(" ----")[0]) in parts
+                if not skip:
+                    out.append(l)
+            if len(out) != len(lines):
+                open(p, "w", encoding="utf-8").write("\n".join(out))
+
+
 def run_harnesses(names, tier, specs):
     """Run the named harnesses (dedup), reuse cached verdicts for identical sources."""
     os.makedirs(WORK, exist_ok=True)
